@@ -148,8 +148,12 @@ def cytoColumn (g : LGraph) : Json :=
       ("id", .str (printedNode g n)), ("parent", .str (parentName n)),
       ("parent_candidates", .arr ((Assemble.cands g n).map (fun p => Json.arr #[.str p.2,
          .str (match p.1 with | .table _ _ => "Table" | .subq _ => "SubQuery" | .path _ => "Path")])).toArray)])).toArray),
-    ("parents", .arr ((cg.nodes.map (fun n => (parentName n, parentType n))).eraseDups.map
-        (fun p => Json.arr #[.str p.1, .str p.2])).toArray),
+    -- `parents_dict` is keyed by the parent OBJECT (identity by eq/hash), one entry per distinct owner; its name is the
+    -- printed name of the LAST column's owner object with that identity (dict comprehension: later wins)
+    ("parents", .arr ((((cg.nodes.map (fun n => Paths.colParent n)).eraseDups).map (fun po =>
+        match (cg.nodes.filter (fun n => Paths.colParent n == po)).getLast? with
+        | some n => Json.arr #[.str (parentName n), .str (parentType n)]
+        | none => Json.arr #[])).toArray)),
     ("edges", .arr (cg.edgesOrdered.map (fun e => Json.arr #[.str (printedNode g e.1), .str (printedNode g e.2)])).toArray)]
 
 def resultJson (g : LGraph) : Json :=
@@ -172,7 +176,8 @@ def configOf (j : Json) : Runner.Config :=
   { cfgDefault := (j.getObjValAs? String "default_schema").toOption.getD "",
     importDefault := (j.getObjValAs? String "import_default").toOption.getD Gen.Const.schemaUnknown,
     silent := (j.getObjValAs? Bool "silent").toOption.getD false,
-    ro := { upper := (j.getObjValAs? Bool "upper").toOption.getD false } }
+    ro := { upper := (j.getObjValAs? Bool "upper").toOption.getD false },
+    revStar := (j.getObjValAs? Nat "rev_star").toOption.getD 0 }
 
 /-- `{"cmd":"sql","stmts":[stmt…],"metadata":{..},"default_schema":"","silent":false,"upper":false,"holders":false}` →
     rendered statements, per‑statement read/write (and optionally full holder graphs), combined result or error -/
@@ -193,7 +198,7 @@ def handleSql (j : Json) : Except String Json := do
           ("drop", jstrs (isort ((Assemble.stmtDrop h).map (printedNode h)))),
           ("rename", .arr ((Assemble.stmtRename h).map (fun e => jstrs [printedNode h e.1, printedNode h e.2])).toArray)])).toArray)] ++
         (if wantHolders then [("holders", Json.arr (hs.map IO.Graph.graphToJson).toArray), ("graph", IO.Graph.graphToJson g)] else []))
-  let env : Walk.Env := ⟨c.cfgDefault, c.importDefault, Holder.ProvView.none, c.ro⟩
+  let env : Walk.Env := ⟨c.cfgDefault, c.importDefault, Holder.ProvView.none, c.ro, 0⟩
   let spec := ss.map (fun s => Json.mkObj [
     ("reads", jstrs (isort (Spec.reads env s))), ("writes", jstrs (isort (Spec.writes env s))),
     ("deviations", jstrs (Spec.deviations s))])
